@@ -22,6 +22,27 @@ CHECKS = {
          "they do not enumerate them; bounded domains (2 ids x 2 namespaces x 2 types, 3 owners, 2 finalizers).",
     technique="TLA+ sequential spec + TLC model checking; model-based replay and TLC trace validation (incl. linearizability acceptor)",
     ref="5.1"),
+ "C02": dict(
+    level="model_checking",
+    text="TLC exhaustively checks the implementation-level ring model (WatchLog.tla: cyclic buffer with first-lap "
+         "growth, gap, watcher read position, batch copy, overrun test, every start option) against the property-level "
+         "vocabulary (WatchProp.tla: exact prefix of the committed log, selector rewrite, errored only if lagged, nothing "
+         "missing when quiet); TLC-simulated command sequences (eager and burst publishes, all watch kinds and options, "
+         "stalled consumers) drive the real in-memory collection inside a synctest bubble for several history "
+         "configurations, and every received event is judged by TLC (TraceWatch.tla).",
+    note="Trusted: TLC, synctest quiescence, the event projection of harness/c02. Watcher read timing on the real code "
+         "is eager or post-burst (GOMAXPROCS(1)); all read interleavings are exhaustive only in the model.",
+    technique="TLA+ ring/watcher model + TLC model checking; TLC-simulated schedules replayed in a synctest bubble; TLC trace validation",
+    ref="5.2"),
+ "C12": dict(
+    level="model_checking",
+    text="Same model and judge as C02; the driver additionally resumes from every bookmark ever delivered (single and kind "
+         "watches), tries malformed / foreign-incarnation / ahead / too-old bookmarks and every tail size 1..MaxCap+2 after "
+         "each TLC-generated history; TLC decides accept/reject (BookmarkAccepted), the invalid-bookmark class, the exact "
+         "resumed suffix and the exact tail contents; the ring model proves RecentBookmarksAccepted and AcceptedBookmarkRetained.",
+    note="Trusted: TLC, bookmark position decoding in the harness (last 8 bytes big endian). Tail+selector combinations not driven.",
+    technique="TLA+ ring model + TLC model checking; model-based replay with exhaustive resume/tail probes; TLC trace validation",
+    ref="5.12"),
 }
 
 NOT_YET = "check not built yet in this round (planned, see DESIGN.md section 5)"
